@@ -8,9 +8,10 @@ TagSeq == <<<<"none", "">>, <<"G", "epsg">>, <<"G", "wkt">>, <<"P", "epsg">>, <<
 \* quick: every ordered tag pair x every kind pair, operation picked round-robin; thorough: the full product
 GeomOps2 == {o \in OpNames : OpTable[o] \in {"geom/2/bool", "geom/2/geom", "geom/2/geoms"}}
 Cases2(op) == {[form |-> "call", op |-> op, tags |-> <<t1, t2>>, kinds |-> <<k1, k2>>] : t1 \in Tags, t2 \in Tags, k1 \in Kinds, k2 \in IF Tier = "quick" THEN {"point", "line", "polygon", "multipolygon", "collection"} ELSE Kinds}
-CasesN(op) == {[form |-> "call", op |-> op, tags |-> <<t1, t2, t3>>, kinds |-> <<k, k, k2>>] : t1 \in Tags, t2 \in Tags, t3 \in {<<"G", "epsg">>, <<"P", "wkt">>, <<"none", "">>},
+CasesN(op) == {[form |-> "call", op |-> op, tags |-> <<t1, t2, t3>>, kinds |-> <<k, k, k2>>, sg |-> g] : g \in BOOLEAN, t1 \in Tags, t2 \in Tags, t3 \in {<<"G", "epsg">>, <<"P", "wkt">>, <<"none", "">>},
                  k \in IF OpTable[op] = "geom/n/geom" \/ OpTable[op] = "geom/n/crs" THEN Kinds ELSE {"box"}, k2 \in IF OpTable[op] \in {"geom/n/geom", "geom/n/crs"} THEN {"polygon", "point"} ELSE {"box"}}
-CasesB(op) == {[form |-> "call", op |-> op, tags |-> <<t1, t2>>, kinds |-> <<"box", "box">>] : t1 \in Tags, t2 \in Tags}
+\* sg: the operands have numerically identical extents / grids (only the CRS tag tells them apart), or shifted ones
+CasesB(op) == {[form |-> "call", op |-> op, tags |-> <<t1, t2>>, kinds |-> <<"box", "box">>, sg |-> g] : t1 \in Tags, t2 \in Tags, g \in BOOLEAN}
 \* chains: the result of a set operation on equal classes is combined with a third operand
 Chains == UNION {{[form |-> "chain", op |-> o1, op2 |-> o2, tags |-> <<t1, t2, t3>>, kinds |-> <<"polygon", k2, "polygon">>] :
              o1 \in {"intersection", "union", "op_and", "difference", "multigeom", "unary_union"}, o2 \in {"intersects", "union", "op_sub", "contains"},
